@@ -68,7 +68,7 @@ def fixed_values(names, cmds):
     # ANOTHER program that carry the same result names as this program's
     other = make_program(None)
     foreign = [other.commands[n] for n in names[:2] if n in other.commands]
-    return [numpy.float32(2.5), numpy.float16(0.75), numpy.int8(3), numpy.float64(1.5), Decimal("2.5"), Fraction(5, 2), [numpy.float32(0.25), 2]] + foreign + [list(foreign)] + [
+    return [[2, 1.0, 1], [0.0, -0.0], [1, 1.0], ["1", 1, "1.0"], [1, 0.5, 1.0, 2], [True, 1, 1.0], ["a.csv", "a.csv"], numpy.float32(2.5), numpy.float16(0.75), numpy.int8(3), numpy.float64(1.5), Decimal("2.5"), Fraction(5, 2), [numpy.float32(0.25), 2]] + foreign + [list(foreign)] + [
             [], [[]], [[1, 2], 3], [names[0], cmds[1]], [1, "2", 3.5], ["1", "x"], (1, 2), [1, 0, 1], [0], [True, 1], [1.0, 2], [[1, 0], [0]], ["a.csv"], ["a.csv", "sub/b.nc"],
             [True, False], ["true", 0], "a.csv", "sub/b.nc", "missing.csv",
             {}, {"a": "b"}, {"k": 1, "j": "v"}, {"1": "x", "3": "y"}, {"a": 1.5}, {"a": [1]}]
@@ -310,6 +310,14 @@ def run(ctx):
                     ctx.fail("%s.clean(%r): a value that is a number already came back as %r (%s)" % (cname, v, r1[1], type(r1[1]).__name__), desc)
                 if r1[0] == "ok" and cname.startswith("Result") and isinstance(v, Command) and r1[1] is not v:
                     ctx.fail("%s.clean(<command object %s>) returned another command object (of program %r)" % (cname, v.result_name, getattr(r1[1], "program", None)), desc)
+                if r1[0] == "ok" and cname.startswith("List") and isinstance(v, (list, tuple)) and isinstance(r1[1], list) and len(r1[1]) == len(v):
+                    # a list is cleaned item by item: each cleaned item is what cleaning that item alone gives (same value, same type), wherever it stands
+                    for item, got_item in zip(v, r1[1]):
+                        alone = call_clean(param.value_type, item, program)
+                        if not same_clean(("ok", got_item), alone):
+                            ctx.fail("%s.clean(%r): the item %r came back as %r (%s); cleaned alone it gives %r" % (
+                                cname, v, item, got_item, type(got_item).__name__, alone[1] if alone[0] == "ok" else alone[:2]), desc)
+                            break
                 if not same_clean(r1, r2):
                     ctx.fail("%s.clean(%r) gives different answers on repetition: %r then %r" % (cname, v, r1[:2], r2[:2]), desc)
                 if before_raw != snap(v):
